@@ -181,12 +181,14 @@ def _close(a, b, tol):
     return abs(a - b) <= tol * max(1.0, abs(b))
 
 
-def node_measurements(tr, keys=None, prop="C08") -> list:
-    """area / pos vs numpy reference for enabled keys (or the given keys)."""
+def node_measurements(tr, keys=None, prop="C08", active=None) -> list:
+    """area / pos vs numpy reference for enabled keys (or the given keys). `active` is the
+    client's view of what is enabled (successful enable/disable calls); it defaults to the
+    library's own flags."""
     seg = tr.segmentation
     if seg is None:
         return []
-    active = set(tr.annotators.features)
+    active = set(tr.annotators.features) if active is None else set(active)
     pos_key = tr.features.position_key
     out = []
     tk = _tkey(tr)
@@ -249,11 +251,11 @@ def _same_exact(a, b):
     return fa == fb
 
 
-def shape_features(tr, keys=None, prop="C08") -> list:
+def shape_features(tr, keys=None, prop="C08", active=None) -> list:
     seg = tr.segmentation
     if seg is None:
         return []
-    active = set(tr.annotators.features)
+    active = set(tr.annotators.features) if active is None else set(active)
     ks = [k for k in ("ellipse_axis_radii", "circularity", "perimeter") if k in active and (keys is None or k in keys)]
     if not ks:
         return []
@@ -292,9 +294,9 @@ def shape_features(tr, keys=None, prop="C08") -> list:
 
 
 # ------------------------------------------------------------------ C09
-def iou_values(tr, prop="C09", oracle="incremental") -> list:
+def iou_values(tr, prop="C09", oracle="incremental", active=None) -> list:
     seg = tr.segmentation
-    if seg is None or "iou" not in tr.annotators.features:
+    if seg is None or "iou" not in (tr.annotators.features if active is None else active):
         return []
     tk = _tkey(tr)
     out = []
